@@ -54,7 +54,20 @@ let handle (line : string) : string =
     let rec take k l = if k = 0 then [] else match l with [] -> [] | x :: t -> x :: take (k - 1) t in
     Printf.sprintf "%s | buf=%d head=%s alive=%s frag=%d" (String.concat " " (List.map event_s evs))
       (List.length buf) (hex_of_bytes (take 14 buf)) (bool_s s.w_alive) (if s.w_alive then List.length s.w_frag else 0)
-  | "RU" :: _ -> "UNMODELLED"       (* the HTTP upgrade handshake is judged by the Python oracle only *)
+  | ["RU"; maxsz; ops] ->
+    (* the client from the TCP connect on: HTTP upgrade response (RFC 6455's sample key / accept value), then frames *)
+    let expected = List.map (fun c -> n_of_int (Char.code c)) (List.of_seq (String.to_seq "s3pPLMBiTxaQ9kYGzzhZRbK+xOo=")) in
+    let chunks = if ops = "-" then [] else List.map (fun o -> match split_on ':' o with
+        | ["F"; h] -> bytes_of_hex h | _ -> failwith ("RU op " ^ o)) (split_on ';' ops) in
+    let (cc, evs) = crun expected (n_of_int (int_of_string maxsz)) (CHandshake []) chunks in
+    let ev_s = List.map (function CConnected p -> "o:" ^ hex_of_bytes p | CUpgradeError -> "e" | CEv e -> event_s e) evs in
+    let rec take k l = if k = 0 then [] else match l with [] -> [] | x :: t -> x :: take (k - 1) t in
+    let (buf, alive, frag) = (match cc with
+        | CHandshake b -> (b, true, 0)
+        | COpen (b, s) -> (b, s.w_alive, if s.w_alive then List.length s.w_frag else 0)
+        | CRefused -> ([], false, 0)) in
+    Printf.sprintf "%s | buf=%d head=%s alive=%s frag=%d" (String.concat " " ev_s)
+      (List.length buf) (hex_of_bytes (take 14 buf)) (bool_s alive) frag
   | _ -> "BADCASE"
 
 let () = run_cases handle
